@@ -1,24 +1,81 @@
 """C08 — field computation never changes objects or inputs, even when it fails"""
+import os
+import sys
+
 from checks import _level2
 from oracles import c08 as oracle
+from oracles import c08_freeze
 
-GEN = ["Exits"]
+GEN = ["Exits", "WriteSet"]
 LEAN_TARGETS = ["MagpyVerif.Props.C08"]
 PROPS = ["MagpyVerif.Props.C08"]
 
 
+def _write_set(ctx):
+    """the write-set analysis as the check sees it: the table of this run (what the Lean theorem `call_path_writes_only_fresh` decides),
+    and the translator's self-test: seeded impurities applied to scratch copies under /tmp must be flagged"""
+    from vlib.core import REPO, ROOT
+
+    sys.path.insert(0, os.path.join(ROOT, "translate"))
+    import writeset
+
+    cov = {}
+    try:
+        res = writeset.analyse(REPO)
+    except Exception as e:  # noqa: BLE001  (gen.py reports the same as a translator refusal)
+        ctx.cov["write_set"] = {"error": f"{type(e).__name__}: {e}"}
+        return
+    flagged = [s for s in res.flagged() if s.kind != "consumeDeep"]
+    ext_untrusted = sorted({(c.fn, c.callee) for c in res.ext if not c.args_fresh})
+    cov.update({"functions_analysed": len(res.functions), "core_field_functions": len(res.argmode), "mutation_sites": len(res.sites),
+                "sites_fresh": sum(s.root == "fresh" for s in res.sites),
+                "sites_allowed": [repr(s) for s in res.sites if s.root != "fresh" and (writeset.allowed(s) or s.kind == "consumeDeep")],
+                "sites_flagged": [repr(s) for s in flagged], "external_calls": len(res.ext),
+                "external_calls_with_preexisting_arguments": [f"{f}: {c}" for f, c in ext_untrusted],
+                "argument_writers": res.consumers, "untranslated_constructs": res.notes, "tiling": res.tiling})
+    for s in flagged:
+        # the Lean theorem over the regenerated table is broken as well; this entry names the site
+        ctx.broken.append({"kind": "write-set", "name": f"{s.fn}:{s.line}", "detail": f"mutation site writes into memory that exists before the call: {s!r}"})
+    st = writeset.selftest(REPO)
+    cov["selftest"] = st
+    for r in st:
+        if r["status"] in ("MISSED", "FLAGGED-WITHOUT-PATCH"):
+            ctx.broken.append({"kind": "write-set-selftest", "name": r["variant"],
+                               "detail": f"translator self-test: variant `{r['variant']}` -> {r['status']} (a seeded impurity must be flagged, an unpatched copy must not)"})
+    cov["selftest_rule"] = ("each variant: copy ONE source file to a scratch directory under /tmp, patch its text (own list extended in place in "
+                            "_validate_getBH_inputs; np.asarray instead of np.array in getBH_dict_level2 with and without a following in-place op; a cache "
+                            "attribute set on the objects in getBH_level2; src._position.resize(...); tile_group_property returning a view of the only "
+                            "source's array; a second, unprotected write of _position after the try), analyse the copy through the overlay argument, "
+                            "expect a flagged site of the expected kind in the expected function; `anchor-missing` = the text to patch is no longer there")
+    ctx.cov["write_set"] = cov
+
+
 def run(ctx, model_ok):
     _level2.run(ctx, oracle.sweep, 90, 3000, [
-        "caller-owned numpy arrays and aliasing (np.shares_memory) are outside the list model: observed by the snapshot oracle",
-        "geometry/excitation/pixel/style attributes are not written by getBH_level2 at all (no assignment sites in the AST other than "
-        "_position/_orientation): observed by the snapshot oracle",
+        "the POINTS-TO CLASSIFICATION of translate/writeset.py is trusted (Model/WriteSet.lean lists it: which numpy / builtin functions and methods return new "
+        "memory, which may return a view or their argument, which write in place; python containers vs. arrays; one contents cell per object; the loop in "
+        "getBH_dict_level2 that rewrites every value of **kwargs): `call_path_writes_only_fresh` is a decision over the table it produces, "
+        "`call_path_preserves_old_heap` takes `DescribedBy table trace` as a hypothesis.  Checked, not proved: the translator's self-test (seeded impurities "
+        "must be flagged) and the freeze oracle (every pre-existing numpy array read-only during real calls through all interfaces)",
+        "code outside the analysed set: user field functions of a CustomSource; the constructors and numpy / scipy / pandas functions called with fresh "
+        "arguments; the eight external callees that receive pre-existing values (Model/WriteSet.lean `trustedCallees`); dunder methods other than "
+        "__iter__/__len__/__getitem__/__repr__; in-place methods under names the translator does not list",
+        "the lazy `style` getter writes the private slots `_style` / `_style_kwargs` (only reached for output='dataframe'): allowed explicitly, excluded from "
+        "the preserved part of the heap; that `obj.style` reads the same before and after is observed by the snapshot oracle, not proved",
+        "elements of object-dtype stacks (ragged Polyline vertices / TriangularMesh faces) reach the core field functions by reference (`consumeDeep` site): "
+        "harmless because no core field function has a write site rooted in an element of what it is given — same table, same trusted classification",
         "level2_preserves_state holds by definition of the model's `restore` once the three regenerated flags are true (restore inside a `finally` directly after the tiling, "
         "no raising statement in between, restore from saved arrays): its content is the AST extraction translate/gen.py:gen_Exits, which looks at top-level statements of "
-        "getBH_level2 only — that the finally-block restores EVERY tiled object, that no callee (getBH_level1, field functions, check_chirality's in-place vertex swap) writes "
-        "object state, and that the inputs checks raising before the tiling leave nothing behind, is observed by the snapshot oracle, not proved; Model/Level2State is not run by the driver. "
+        "getBH_level2 only — that the finally-block restores EVERY tiled object is now `restore_covers_every_tiled_object` (same list, bound once, never mutated), that no "
+        "callee writes object state is `call_path_writes_only_fresh`; Model/Level2State and the heap of Model/WriteSet are not run by the driver. "
         "That each of the three flags is NEEDED is shown by witnesses on Level2State.runFlags (the same transformer with the three facts as arguments and scipy's re-normalisation of the "
         "tiled orientation path as a parameter): without_finally_flag_state_leaks, with_unprotected_site_state_leaks, with_slicing_renormalisation_leaks / "
         "with_slicing_unequal_paths_leak; level2_preserves_state_any_norm is the sufficiency for every re-normalisation, without the equal-lengths hypothesis"])
+    _write_set(ctx)
+    budget = 10 if len(ctx.broken) else 1
+    fails, fst = c08_freeze.sweep(ctx, ctx.scale(100, 1500) * budget)
+    ctx.cov["oracle"].update(fst)
+    ctx.failing += fails
 
 
 replay = _level2.replay
